@@ -1,11 +1,13 @@
-# KF-C15-2 (C15): LockedMachine.__getstate__ builds {model: contexts} keyed by the model OBJECTS, so a locked
-# machine with an unhashable model (e.g. a dataclass, which sets __hash__ = None) cannot be pickled, although
-# the same model works with the machine otherwise and pickles fine with Machine; the comment above
-# __getstate__ claims the store "enable[s] the usage of unhashable objects in locked machine".
+# Regression for the former KF-C15-2 (C15), FIXED in /repo by 3c0ca68 "fix: locked machines with unhashable
+# models can be pickled".
+# Before the fix LockedMachine.__getstate__ built {model: contexts} keyed by the model OBJECTS, so a locked
+# machine with an unhashable model (e.g. a dataclass, which sets __hash__ = None) raised TypeError on
+# pickle.dumps.  The store is a list of (model, contexts) pairs now.  This probe asserts the FIXED behaviour.
 import pickle
 from dataclasses import dataclass
 from transitions import Machine
-from transitions.extensions import LockedMachine, LockedHierarchicalMachine
+from transitions.extensions import (LockedMachine, LockedHierarchicalMachine, LockedGraphMachine,
+                                    LockedHierarchicalGraphMachine)
 
 
 @dataclass
@@ -13,13 +15,14 @@ class Model:
     n: int = 0
 
 
-for cls in (Machine, LockedMachine, LockedHierarchicalMachine):
-    m = cls(model=Model(), states=['A', 'B'], initial='A', transitions=[['go', 'A', 'B']])
-    assert m.models[0].go() and m.models[0].state == 'B'          # the machine works with this model
-    try:
-        m2 = pickle.loads(pickle.dumps(m))
-        print(cls.__name__, 'pickles; copy state', m2.models[0].state)
-        assert cls is Machine
-    except TypeError as e:
-        print(cls.__name__, 'TypeError:', e)
-        assert cls is not Machine
+for cls in (Machine, LockedMachine, LockedHierarchicalMachine, LockedGraphMachine, LockedHierarchicalGraphMachine):
+    kw = dict(graph_engine='mermaid') if 'Graph' in cls.__name__ else {}
+    m = cls(model=[Model(1), Model(2)], states=['A', 'B'], initial='A', transitions=[['go', 'A', 'B']], **kw)
+    assert m.models[0].go() and m.models[0].state == 'B'
+    m2 = pickle.loads(pickle.dumps(m))
+    print(cls.__name__, 'pickles; copy states', [x.state for x in m2.models])
+    assert [x.state for x in m2.models] == ['B', 'A'] and [x.n for x in m2.models] == [1, 2]
+    if cls is not Machine:
+        assert set(m2.model_context_map) == {id(x) for x in m2.models}
+        assert all(m2.model_context_map[id(x)][0] is m2.machine_context[0] for x in m2.models)
+    assert m2.models[1].go() and m2.models[1].state == 'B' and m.models[1].state == 'A'
